@@ -16,6 +16,61 @@ use vcore::util;
 pub static SET_OVERRIDES: std::sync::OnceLock<fn(Vec<(Vec<u8>, u64)>)> = std::sync::OnceLock::new();
 pub static FORCE: std::sync::atomic::AtomicBool = std::sync::atomic::AtomicBool::new(false);
 pub static FORCED_RUNS: std::sync::atomic::AtomicU64 = std::sync::atomic::AtomicU64::new(0);
+/// Interleaving pass: every call of a history on the archive under test is preceded by a call on
+/// a SECOND, unrelated live archive (state kept outside the object — a memo of the last
+/// relocation, a scratch table at module scope — is consumed by the wrong object only then).
+pub static DECOY: std::sync::atomic::AtomicBool = std::sync::atomic::AtomicBool::new(false);
+pub static DECOY_STEPS: std::sync::atomic::AtomicU64 = std::sync::atomic::AtomicU64::new(0);
+
+fn decoy_new() -> Option<BinArchive> {
+    let mut c = Content::new(End::Little);
+    c.data = (0..24u8).map(|i| 0xA0 | i).collect();
+    for a in [0usize, 12] {
+        c.data[a..a + 4].copy_from_slice(&[0; 4]);
+    }
+    c.strings.insert(0, "decoy".into());
+    c.pointers.insert(12, 20);
+    c.labels.insert(8, vec!["DecoyA".into(), "DecoyB".into()]);
+    c.labels.insert(24, vec!["DecoyEnd".into()]);
+    arch::build(&c, None).ok()
+}
+
+/// the k-th call of a fixed cycle on the decoy archive (results ignored: only the archive under
+/// test is judged)
+fn decoy_step(d: &mut Option<BinArchive>, k: usize) {
+    let Some(a) = d.as_mut() else { return };
+    DECOY_STEPS.fetch_add(1, std::sync::atomic::Ordering::Relaxed);
+    match k % 8 {
+        0 => {
+            let _ = a.allocate(4, 8, false);
+        }
+        1 => {
+            let _ = a.write_c_string(4, "decoy-pool".into());
+            let _ = a.write_label(4, "DecoyC");
+        }
+        2 => {
+            let _ = a.serialize();
+        }
+        3 => {
+            let _ = a.deallocate(4, 4, true);
+        }
+        4 => a.allocate_at_end(8),
+        5 => {
+            let n = a.size();
+            let _ = a.truncate(n.saturating_sub(4));
+        }
+        6 => {
+            let _ = a.deallocate(0, 4, false);
+            let _ = a.write_string(0, Some("decoy2"));
+        }
+        _ => {
+            if let Ok(b) = a.serialize() {
+                let _ = BinArchive::from_bytes(&b, mila::Endian::Little);
+            }
+            *d = decoy_new();
+        }
+    }
+}
 
 fn set_overrides(v: Vec<(Vec<u8>, u64)>) {
     if let Some(f) = SET_OVERRIDES.get() {
@@ -82,6 +137,9 @@ pub enum Op {
     DeletePointer(usize),
     DeleteLabels(usize),
     DeleteLabel(usize, usize),
+    /// serialize, then parse the image again and continue on the PARSED archive (pending c-strings
+    /// become pool bytes + pointers; everything else must be the same archive)
+    Reload,
 }
 
 impl Op {
@@ -101,10 +159,22 @@ impl Op {
             Op::DeletePointer(..) => "delete_pointer",
             Op::DeleteLabels(..) => "delete_labels",
             Op::DeleteLabel(..) => "delete_label",
+            Op::Reload => "reload",
         }
     }
     pub fn is_relocation(&self) -> bool {
         matches!(self, Op::Allocate(..) | Op::AllocateAtEnd(..) | Op::Deallocate(..) | Op::Truncate(..) | Op::WriterAllocate(..) | Op::WriterAllocateAtEnd(..))
+    }
+}
+
+thread_local! {
+    static RELOAD_ENDIAN: std::cell::Cell<bool> = std::cell::Cell::new(false);
+}
+fn reload_endian(_a: &BinArchive) -> mila::Endian {
+    if RELOAD_ENDIAN.with(|c| c.get()) {
+        mila::Endian::Big
+    } else {
+        mila::Endian::Little
     }
 }
 
@@ -138,6 +208,16 @@ pub fn apply_real(a: &mut BinArchive, op: &Op) -> Result<(), String> {
         Op::DeletePointer(x) => a.delete_pointer(*x),
         Op::DeleteLabels(x) => a.delete_labels(*x),
         Op::DeleteLabel(x, i) => a.delete_label(*x, *i),
+        Op::Reload => {
+            let e = match a.serialize().and_then(|b| BinArchive::from_bytes(&b, reload_endian(a))) {
+                Ok(n) => {
+                    *a = n;
+                    return Ok(());
+                }
+                Err(e) => e,
+            };
+            Err(e)
+        }
     };
     r.map_err(|e| e.to_string())
 }
@@ -167,6 +247,10 @@ pub fn apply_model(m: &mut Content, op: &Op) -> Expect {
         }
         Op::Truncate(a) => {
             m.truncate(*a);
+            Expect::Accept
+        }
+        Op::Reload => {
+            *m = vcore::ref_bin::materialise_cstrings(m);
             Expect::Accept
         }
         Op::WriterAllocateAtEnd(_, n) => {
@@ -231,11 +315,19 @@ pub fn normalised(c: &Content) -> Content {
 
 impl Sys {
     pub fn rebuild(&self, init: usize, hist: &[Op]) -> Result<BinArchive, String> {
+        self.rebuild_with_decoy(init, hist).map(|x| x.0)
+    }
+
+    pub fn rebuild_with_decoy(&self, init: usize, hist: &[Op]) -> Result<(BinArchive, Option<BinArchive>), String> {
         let mut a = arch::build(&self.inits[init], None)?;
-        for op in hist {
+        let mut decoy = if DECOY.load(std::sync::atomic::Ordering::Relaxed) { decoy_new() } else { None };
+        for (k, op) in hist.iter().enumerate() {
+            decoy_step(&mut decoy, k);
             let _ = apply_real(&mut a, op);
         }
-        Ok(a)
+        // the call the caller is about to make is preceded by a decoy call as well
+        decoy_step(&mut decoy, hist.len());
+        Ok((a, decoy))
     }
 
     /// One transition on the real object + model; returns Err((sig, summary)) on divergence.
@@ -278,8 +370,14 @@ impl Sys {
             FORCED_RUNS.fetch_add(1, std::sync::atomic::Ordering::Relaxed);
         }
         let real = util::catch(|| -> Result<(Result<(), String>, arch::Obs, Result<Vec<u8>, String>), String> {
-            let mut a = self.rebuild(s.init, hist)?;
+            RELOAD_ENDIAN.with(|c| c.set(s.model.endian == End::Big));
+            let (mut a, decoy) = self.rebuild_with_decoy(s.init, hist)?;
             let r = apply_real(&mut a, op);
+            if let Some(d) = &decoy {
+                // the second archive is read between the call and the observations
+                let _ = arch::observe(d);
+                let _ = d.serialize();
+            }
             let o = arch::observe(&a);
             let img = a.serialize().map_err(|e| e.to_string());
             Ok((r, o, img))
@@ -293,7 +391,7 @@ impl Sys {
             Ok(Ok(x)) => x,
         };
         let accepted = r.is_ok();
-        let model_after = match (&expect, accepted) {
+        let mut model_after = match (&expect, accepted) {
             (Expect::Accept, true) | (Expect::Either, true) => model,
             (Expect::Reject, false) => {
                 w |= 32;
@@ -307,6 +405,17 @@ impl Sys {
                 return Err((format!("{}:accepted-invalid", kind), format!("{:?} was accepted but must be rejected (misaligned or out of range)", op), w));
             }
         };
+        if matches!(op, Op::Reload) && accepted {
+            // the raw bytes under annotated cells of a parsed archive are whatever the file holds
+            // there (pointer values, text offsets): taken over from the observation, they then
+            // belong to the content and must move with their cell
+            let cells: Vec<usize> = model_after.strings.keys().chain(model_after.pointers.keys()).cloned().collect();
+            for a in cells {
+                if a + 4 <= model_after.data.len() && a + 4 <= obs.bytes.len() {
+                    model_after.data[a..a + 4].copy_from_slice(&obs.bytes[a..a + 4]);
+                }
+            }
+        }
         let d = arch::diff_obs(&obs, &normalised(&model_after));
         if !d.is_empty() {
             let field = d[0].split_whitespace().next().unwrap_or("?").to_string();
@@ -401,6 +510,9 @@ impl System for Sys {
             for ge in [false, true] {
                 v.push(Op::WriterAllocate(pos, 4, ge));
             }
+        }
+        if m.in_roundtrip_domain() {
+            v.push(Op::Reload);
         }
         v.push(Op::WriterAllocate(size, 2, false));
         v.push(Op::WriterAllocateAtEnd(0, 4));
@@ -714,6 +826,21 @@ pub fn explore(ctx: &Ctx) -> Outcome {
     if !hooked {
         medium_search(ctx.tier, &mut o, &mut cov);
     }
+    if !hooked {
+        // interleaving pass: the same search, one level less, with a call on a second live
+        // archive before every call of every history
+        DECOY.store(true, std::sync::atomic::Ordering::Relaxed);
+        let d = bfs::explore(&sys, Some(max_depth - 1), Some(2_000_000));
+        DECOY.store(false, std::sync::atomic::Ordering::Relaxed);
+        cov.states += d.states;
+        cov.transitions += d.transitions;
+        cov.traces_validated_against_impl += d.transitions;
+        cov.evaluations += d.transitions;
+        cov.extra.insert("interleaved_second_archive".into(), json!({"depth": max_depth - 1, "states": d.states, "transitions": d.transitions, "decoy_calls": DECOY_STEPS.load(std::sync::atomic::Ordering::Relaxed)}));
+        for v in d.violations {
+            o.violate(format!("interleaved:{}", v.sig), format!("[a call on a second archive before every call] {}", v.summary), json!({"interleaved": true, "history": op_json(&v.history)}));
+        }
+    }
     let (steps, script) = if hooked { (0, json!([])) } else { large_script(&mut o) };
     if !hooked {
         let n = many_annotations_script(&mut o);
@@ -756,6 +883,18 @@ pub fn replay(ctx: &Ctx, case: &Value) -> Vec<Violation> {
     let hist: Vec<Op> = serde_json::from_value(case["history"].clone()).unwrap_or_default();
     if hist.is_empty() {
         return vec![];
+    }
+    if case["interleaved"] == true {
+        DECOY.store(true, std::sync::atomic::Ordering::Relaxed);
+        let mut c = case.clone();
+        c.as_object_mut().unwrap().remove("interleaved");
+        let mut out = replay(ctx, &c);
+        DECOY.store(false, std::sync::atomic::Ordering::Relaxed);
+        for v in out.iter_mut() {
+            v.sig = format!("interleaved:{}", v.sig);
+            v.case = case.clone();
+        }
+        return out;
     }
     if let Some(n) = case["medium"].as_u64() {
         let e = if case["endian"] == "Big" { End::Big } else { End::Little };
